@@ -405,10 +405,23 @@ class ToUnitInterval(Contract):
         I.path.assume(n >= 1)
         xdt = Sym(z3.Const("dtype_of_x", Misc), "dtype")
         x = base_arr("x_in", "row", n, {"dtype": xdt})
-        scale = z3.Real("scale_log_abs_det_jacobian")
-        o = Obj("BoundedTransform", {"xp": Mod("xp"), "dtype": xdt, "lower": base_arr("lower", "real", z3.Int("n_dims")), "upper": base_arr("upper", "real", z3.Int("n_dims")),
-                                     "_denom": base_arr("denom", "real", z3.Int("n_dims")), "_scale_log_abs_det_jacobian": R(scale)})
-        return Pre(o, [x], {}, ghost={"n": n, "xdt": xdt, "scale": scale})
+        # the transform is built by its real constructor (whatever it caches for later use is then present, computed from the bounds)
+        nd = z3.Int("n_dims")
+        I.path.assume(nd >= 1)
+        lo, hi = base_arr("lower", "real", nd, {"dtype": xdt}), base_arr("upper", "real", nd, {"dtype": xdt})
+        I.depth += 1
+        try:
+            o = I.construct(ClassRef("BoundedTransform"), [], {"lower": lo, "upper": hi, "xp": Mod("xp"), "dtype": xdt}, None)
+        except RaiseSig:
+            raise PathEnd()           # bounds the constructor rejects (an interval of width zero): no transform, nothing to show
+        finally:
+            I.depth -= 1
+        sc = o.f.get("_scale_log_abs_det_jacobian")
+        if not isinstance(sc, Z):
+            from pyvc.engine import ContractOutOfDate
+            raise ContractOutOfDate("BoundedTransform no longer stores _scale_log_abs_det_jacobian as a scalar")
+        I.path.events[:] = [e for e in I.path.events if e[0] != "alloc"]          # allocations of the constructor are not the subject here
+        return Pre(o, [x], {}, ghost={"n": n, "xdt": xdt, "scale": to_real(sc)})
 
     def post(self, I, pre, r):
         p, g = I.path, pre.ghost
